@@ -2,7 +2,8 @@
     arithmetic is reproducible) and property oracles (Checker.v on the implementation's outputs).
     Does not depend on Proofs.v. *)
 From Coq Require Import List NArith ZArith QArith Bool Floats.
-From LinfaVerif Require Export Common.Num Common.NdSum Common.QF Common.Run Common.IvEval C12.Model C12.Checker.
+From Coq Require Import SpecFloat.
+From LinfaVerif Require Export Common.Num Common.NdSum Common.QF Common.Run Common.IvEval Common.B32 C12.Model C12.Checker.
 Import ListNotations.
 
 Definition o64 := B64_ops.
@@ -90,6 +91,77 @@ Definition bin_oracle (c : bin_case) : N :=
                && forallb (fun pp => lab_eqb (snd pp) (if PrimFloat.leb (bf_thr f) (fst pp) then bf_pos f else bf_neg f))
                           (combine (bf_prob f) (bf_pred f))) 16)%N
   end.
+
+
+(** * binary logistic regression at f32 (LogisticRegression<f32>): the same Gallina model instantiated at
+    B32_ops (SpecFloat at precision 24) against the Rust f32 execution, bit for bit *)
+Definition o32 := B32_ops.
+Definition b32 (z : Z) : spec_float := b32_of_bits z.
+Definition sfs_eqb := list_eqb b32_biteq.
+Definition unit_ok32 (p : spec_float) : bool := sf_finite p && SFleb (zero o32) p && SFleb p (one o32).
+Definition svec_finite (v : list spec_float) : bool := forallb sf_finite v.
+Definition svecQ (v : list spec_float) : list Q := map SF2Qd v.
+
+(* the value Rust computed for expf(arg): within 2^-21 relative (+ one subnormal ulp) of the truth;
+   +infinity only beyond the overflow threshold *)
+Definition exp_consistent32 (arg : Q) (e : spec_float) : bool :=
+  match e with
+  | S754_infinity false => Qle_bool 88 arg
+  | S754_zero _ | S754_finite _ _ _ =>
+      close_i (SF2Qd e) (I.exp prec (iv_q prec arg)) (1 # (2 ^ 149)) (1 # (2 ^ 21))
+  | _ => false
+  end.
+(* |p - 1/(1+exp(-z))| <= 2^-16: z is the exact linear predictor, p went through an f32 dot product *)
+Definition logistic_close32 (p z : Q) : bool := close_i p (iv_eval prec [] (logistic_e z)) (1 # (2 ^ 16)) 0.
+
+Record bin32_fit := {
+  b3_w : list spec_float; b3_b : spec_float; b3_pos : lab; b3_neg : lab;
+  b3_thr : spec_float;
+  b3_Q : list (list spec_float);
+  b3_exp : list spec_float;     (* Rust's expf(-(q.w + b)) per query row *)
+  b3_prob : list spec_float;    (* predict_probabilities *)
+  b3_pred : list lab;           (* predict *)
+  b3_w64 : list float; b3_b64 : float   (* the f32 parameters widened to f64 (for the stationarity checker) *)
+}.
+Record bin32_case := {
+  b3c_labels : list lab;
+  b3c_X : list (list float);    (* the f32 training data widened exactly to f64 *)
+  b3c_alpha : float; b3c_icpt : bool; b3c_tol : float;   (* the f32 hyper-parameters, widened *)
+  b3c_stat : bool;
+  b3c_fit : bin32_fit
+}.
+
+Definition bin32_corr (c : bin32_case) : N :=
+  let f := b3c_fit c in
+  match label_classes lab_eqb (b3c_labels c) with
+  | inr bl =>
+      let zs := lin_pred o32 (b3_Q f) (b3_w f) (b3_b f) in
+      let pm := map (logistic_of_exp o32) (b3_exp f) in
+      (flag (lab_eqb (bl_pos bl) (b3_pos f) && lab_eqb (bl_neg bl) (b3_neg f)) 1
+       + flag (same_len zs (b3_exp f)
+               && forallb (fun ze => exp_consistent32 (SF2Qd (neg_arg o32 (fst ze))) (snd ze)) (combine zs (b3_exp f))) 2
+       + flag (sfs_eqb pm (b3_prob f)) 4
+       + flag (labs_eqb (map (bin_decide o32 (b3_pos f) (b3_neg f) (b3_thr f)) pm) (b3_pred f)) 8
+       + flag (same_len (b3_w f) (b3_w64 f)
+               && forallb (fun ab => Qeq_bool (SF2Qd (fst ab)) (f64_Q (snd ab))) (combine (b3_w f) (b3_w64 f))
+               && Qeq_bool (SF2Qd (b3_b f)) (f64_Q (b3_b64 f))
+               && svec_finite (b3_w f) && sf_finite (b3_b f) && vec_finite (b3_w64 f) && f64_finite (b3_b64 f)) 32)%N
+  | inl _ => 1%N
+  end.
+
+Definition bin32_oracle (c : bin32_case) : N :=
+  let f := b3c_fit c in
+  let target := map (fun l => lab_eqb l (b3_pos f)) (b3c_labels c) in
+  let w := svecQ (b3_w f) in let b := SF2Qd (b3_b f) in
+  (flag (negb (b3c_stat c) || bin_ok (b3c_alpha c) (b3c_icpt c) (b3c_X c) target (b3_w64 f) (b3_b64 f) (b3c_tol c)) 1
+   + flag (bin_label_spec (b3c_labels c) (b3_pos f) (b3_neg f)) 2
+   + flag (same_len (b3_prob f) (b3_Q f) && forallb unit_ok32 (b3_prob f)) 4
+   + flag (forallb svec_finite (b3_Q f) && svec_finite (b3_w f) && sf_finite (b3_b f)
+           && forallb (fun qp => logistic_close32 (SF2Qd (snd qp)) (Qlin (svecQ (fst qp)) w b))
+                      (combine (b3_Q f) (b3_prob f))) 8
+   + flag (same_len (b3_pred f) (b3_prob f)
+           && forallb (fun pp => lab_eqb (snd pp) (if SFleb (b3_thr f) (fst pp) then b3_pos f else b3_neg f))
+                      (combine (b3_prob f) (b3_pred f))) 16)%N.
 
 (** * multinomial logistic regression *)
 Record multi_fit := {
@@ -236,12 +308,14 @@ Definition glm_oracle (c : glm_case) : N :=
 (** * cases *)
 Inductive case :=
 | CBin (id : N) (c : bin_case)
+| CBin32 (id : N) (c : bin32_case)
 | CMulti (id : N) (c : multi_case)
 | CGlm (id : N) (c : glm_case).
 
 Definition run_case (c : case) : verdict :=
   match c with
   | CBin id b => (id, (bin_corr b, bin_oracle b))
+  | CBin32 id b => (id, (bin32_corr b, bin32_oracle b))
   | CMulti id m => (id, (multi_corr m, multi_oracle m))
   | CGlm id g => (id, (glm_corr g, glm_oracle g))
   end.
